@@ -49,7 +49,9 @@ def nucleationBarrier(volumeDrivingForce, precipitate : PrecipitateParameters, a
     else:
         RcritProposal = precipitate.nucleation.Rcrit(volumeDrivingForce[indices])
         Rcrit[indices] = np.amax([RcritProposal, Rmin[indices]], axis=0)
-        Gcrit[indices] = precipitate.nucleation.Gcrit(volumeDrivingForce[indices], Rcrit[indices])
+        # (b*gamma - a*gbEnergy) = 3*c*gamma, so at R* the barrier is c*gamma*R*^2 (4*pi/3*gamma*R*^2 for a sphere, as above)
+        # evaluating the energy curve at a radius raised to Rmin instead gives a negative barrier once Rmin > 1.5 R*
+        Gcrit[indices] = precipitate.nucleation.volumeFactor * precipitate.gamma * Rcrit[indices]**2
 
     return np.squeeze(Rcrit), np.squeeze(Gcrit)
 
